@@ -85,12 +85,12 @@ def specC03Slice (F : Fmt) (qmax : Rat) (xs : List Rat) (s : FV) : C03Verdict :=
   match s with
   | .fin sq =>
     if sq < 0 then .scaleNotFinite else
-    if amax = 0 then (if sq = 0 then .ok else .notFullRange) else
+    if amax = 0 then (if sq ≤ 2 * F.eta then .ok else .notFullRange) else
     -- no element saturates by more than rounding: |x| ≤ s·qmax(1 + 2u) + η·qmax
     -- (the absolute term covers a scale that underflows in the subnormal range of F)
     if !(xs.all fun x => rabs x ≤ sq * qmax * (1 + 2 * F.u) + F.eta * qmax) then .saturates else
-    -- full range: s ≤ amax/qmax (1+u) + η
-    if sq > amax / qmax * (1 + F.u) + F.eta then .notFullRange else .ok
+    -- full range: s ≤ amax/qmax (1+u) + 2η  (2η ≥ the smallest positive value of F, to which a null scale is clamped)
+    if sq > amax / qmax * (1 + F.u) + 2 * F.eta then .notFullRange else .ok
   | _ => .scaleNotFinite
 
 /-- whole tensor for an 8-bit symmetric scale (`axis` none / first / last) -/
